@@ -196,6 +196,7 @@ inline void child_run(const Target& t, const Bytes& img, const std::vector<Fault
   signal(SIGVTALRM, SIG_DFL);
   signal(SIGXCPU, on_cpu_limit);
   signal(SIGALRM, on_cpu_limit);
+  struct rlimit rc0; rc0.rlim_cur = rc0.rlim_max = 0; setrlimit(RLIMIT_CORE, &rc0);
   struct rlimit rl; rl.rlim_cur = single ? 10 : 12; rl.rlim_max = 20; setrlimit(RLIMIT_CPU, &rl);
   alarm(300);
   __sanitizer_install_malloc_and_free_hooks(malloc_hook, free_hook);
@@ -358,6 +359,7 @@ inline void report(const std::string& key, const std::string& detail) {
   uint64_t& n = seen[key];
   ++n;
   count("violations_all");
+  count("viol:" + key);
   if (n <= 2) fail(key, detail);
 }
 
@@ -452,11 +454,7 @@ inline void run_target_case(const Target& t, uint64_t variant, Rng& r) {
   uint32_t next = 0;
   uint64_t nrej = 0, nident = 0, nusable = 0, nthrew = 0, nviol = 0, ndeaths = 0;
   uint64_t sigacc = mix64(h, img.size());
-  while (next < N) {
-    const uint32_t to = std::min(N, next + SLICE);
-    s->nrec = 0; s->max_alloc = 0; s->n_large_alloc = 0; s->mem_blowup = 0; s->tail_zero_ident = 0;
-    ChildEnd ce = fork_slice(t, img, faults, next, to, false);
-    count("forks");
+  auto process_recs = [&](const ChildEnd& ce) {
     // oracle verdicts recorded by the child
     for (uint32_t k = 0; k < s->nrec && k < MAXREC; ++k) {
       const Rec& rc = s->recs[k];
@@ -465,19 +463,19 @@ inline void run_target_case(const Target& t, uint64_t variant, Rng& r) {
       std::string detail = fault_str(f, img) + ": " + rc.detail;
       std::string key = tk + "|" + (f.type == F_TRUNC ? "trunc" : "corrupt") + "|" + cls;
       if (cls.rfind("leak", 0) == 0) {
+        // allocation site inside the library, taken from the LeakSanitizer report the child printed
         std::string c2, frame; classify_report(ce.err, c2, frame);
-        // first frame below operator new inside the library, taken from the LSan report if there is one
         key += "|" + frame;
-        detail += " | " + ce.err.substr(0, 1500);
+        detail += " | " + ce.err.substr(0, 2500);
       }
       report(key, detail);
     }
     count("tail_zero_accepted_identical", s->tail_zero_ident);
     count("large_allocations_over_64MiB", s->n_large_alloc);
-    const bool finished = (ce.kind == 0 && ce.code == 0 && s->slice_done);
-    const uint32_t curv = s->cur;
-    uint32_t upto = finished ? to : std::min<uint32_t>(curv == BASELINE_IDX ? next : curv, to);
-    for (uint32_t i = next; i < upto; ++i) {
+    s->nrec = 0; s->tail_zero_ident = 0; s->n_large_alloc = 0;
+  };
+  auto account = [&](uint32_t from, uint32_t upto) {
+    for (uint32_t i = from; i < upto; ++i) {
       switch (s->outcome[i]) {
         case O_REJECT: ++nrej; break;
         case O_ACCEPT_IDENT: ++nident; break;
@@ -488,32 +486,45 @@ inline void run_target_case(const Target& t, uint64_t variant, Rng& r) {
       }
       sigacc = mix64(sigacc, s->outcome[i]);
     }
+  };
+  while (next < N) {
+    const uint32_t to = std::min(N, next + SLICE);
+    s->nrec = 0; s->max_alloc = 0; s->n_large_alloc = 0; s->mem_blowup = 0; s->tail_zero_ident = 0;
+    ChildEnd ce = fork_slice(t, img, faults, next, to, false);
+    count("forks");
+    process_recs(ce);
+    const bool finished = (ce.kind == 0 && ce.code == 0 && s->slice_done);
+    const uint32_t curv = s->cur;
+    account(next, finished ? to : std::min<uint32_t>(curv == BASELINE_IDX ? next : curv, to));
     if (finished) { next = to; continue; }
     // ---- the child died
     ++ndeaths; count("child_deaths");
-    if (s->cur == BASELINE_IDX) {
+    if (curv == BASELINE_IDX) {
       std::string cls, frame; classify_report(ce.err, cls, frame);
       report("harness|" + tk + "|baseline-readout-failed|" + cls + "|" + frame,
              "reading the INTACT image failed in the child (exit kind " + std::to_string(ce.kind) + " code " + std::to_string(ce.code) + "): " + ce.err.substr(0, 3000));
       count("baseline_failed");
       return;
     }
-    const uint32_t bad = s->cur;
+    const uint32_t bad = curv;
     const Fault& f = faults[bad];
-    const uint32_t phase = s->phase;
+    uint32_t phase = s->phase;
+    const bool blow = s->mem_blowup || (ce.kind == 0 && ce.code == 95);
     std::string cls, frame;
     classify_report(ce.err, cls, frame);
     bool hang = false;
     if (ce.kind == 0 && ce.code == 98) {
-      // CPU limit: confirm by running this fault alone
+      // CPU limit: confirm by running this fault alone with a fresh 10 s budget
+      s->outcome[bad] = O_NONE;
       ChildEnd ce2 = fork_slice(t, img, faults, bad, bad + 1, true);
       count("forks");
-      if (ce2.kind == 0 && ce2.code == 98) { hang = true; cls = "hang"; frame = "cpu-limit"; }
-      else if (ce2.kind == 0 && ce2.code == 0) { count("cpu_limit_not_reproduced"); next = bad + 1; continue; }
-      else { ce = ce2; classify_report(ce.err, cls, frame); }
+      process_recs(ce2);
+      if (ce2.kind == 0 && ce2.code == 98) { hang = true; cls = "hang"; frame = "cpu-limit-10s"; }
+      else if (ce2.kind == 0 && ce2.code == 0 && s->slice_done) { count("cpu_limit_not_reproduced"); account(bad, bad + 1); next = bad + 1; continue; }
+      else { ce = ce2; phase = s->phase; classify_report(ce.err, cls, frame); }
     }
     if (!hang) {
-      if (s->mem_blowup || (ce.kind == 0 && ce.code == 95)) { cls = "memory-blowup-over-3GiB"; }
+      if (blow) { cls = "memory-blowup-over-3GiB"; }
       else if (cls.empty()) {
         if (ce.kind == 1) cls = std::string("signal-") + std::to_string(ce.code);
         else cls = "exit-" + std::to_string(ce.code);
